@@ -239,6 +239,25 @@ def run(chk, scratch):
             recs = defaultdict(set)
             for a in o.assignments():
                 recs[a.read_id].add((a.chr, tuple(a.exons), a.isoform, a.atype + "/gene:" + str(a.info.get("gene_assignment", "?"))))
+            # supplementary records of the BAM (0x800) never compete with the primary alignment: nothing is reported at their position, and
+            # the reads they belong to are reported where their primary alignment lies
+            supp = defaultdict(list)
+            prim = defaultdict(list)
+            for rd in w.reads:
+                if rd.flag & 4 or not rd.truth.get("class", "").endswith(("supplementary-record", "primary-of-chimeric-read")):
+                    continue
+                (supp if rd.flag & 2048 else prim)[rd.name].append((rd.chrom, rd.pos0 + 1))
+            for rid, locs in supp.items():
+                printed_at = set((c, e[0][0]) for c, e, i, t in recs.get(rid, ()) if e)
+                chk.count("chimeric_reads_judged")
+                for c, st in locs:
+                    if any(pc == c and abs(ps - st) <= 40 for pc, ps in printed_at):
+                        chk.violation("supplementary-record-reported", "%s: read %s is reported at %s:%d, the position of its supplementary record (primary at %s)" %
+                                      (desc, rid, c, st, prim.get(rid)), wit)
+                for c, st in prim.get(rid, ()):
+                    if not any(pc == c and abs(ps - st) <= 40 for pc, ps in printed_at):
+                        chk.violation("primary-of-chimeric-read-not-reported", "%s: read %s is not reported at its primary alignment %s:%d (reported at %s)" %
+                                      (desc, rid, c, st, sorted(printed_at)[:3]), wit)
             # the resolver's verdict is what the outputs show: every printed record lies on a retained alignment, every retained
             # alignment that carries an assignment is printed (alignments of one read on ONE chromosome are told apart by position)
             for rid, after in verdict.items():
